@@ -9,6 +9,7 @@ import (
 	"io"
 	"strconv"
 	"testing"
+	"unicode/utf8"
 
 	"github.com/relex/gotils/logger"
 	"github.com/relex/slog-agent/base"
@@ -29,12 +30,14 @@ type Op struct {
 }
 
 type Case struct {
-	Mode       string `json:"mode"` // Forward | PackedForward | CompressedPackedForward | Datadog
-	Tag        string `json:"tag"`
-	Noise      bool   `json:"noise,omitempty"` // payloads are incompressible pseudo-random text instead of a repeating alphabet
-	MaxBytes   int    `json:"maxBytes"`   // Forward modes: chunk byte limit (0 = production 7 MiB)
-	MaxRecords int    `json:"maxRecords"` // Forward modes: record limit (0 = unlimited, production)
-	Ops        []Op   `json:"ops"`
+	Mode   string `json:"mode"` // Forward | PackedForward | CompressedPackedForward | Datadog
+	Tag    string `json:"tag"`
+	TagRaw []byte `json:"tagRaw,omitempty"` // Forward modes: the tag as raw bytes (tags are expanded from key values of the logs and need
+	// not be valid UTF-8); overrides Tag
+	Noise      bool `json:"noise,omitempty"` // payloads are incompressible pseudo-random text instead of a repeating alphabet
+	MaxBytes   int  `json:"maxBytes"`        // Forward modes: chunk byte limit (0 = production 7 MiB)
+	MaxRecords int  `json:"maxRecords"`      // Forward modes: record limit (0 = unlimited, production)
+	Ops        []Op `json:"ops"`
 }
 
 const (
@@ -65,6 +68,9 @@ func payload(idx, size int) []byte {
 var noise bool // set from Case.Noise for the duration of a case
 
 func newMaker(c Case) (base.LogChunkMaker, bconfig.LogOutputConfig) {
+	if len(c.TagRaw) > 0 && c.Mode != "Datadog" {
+		c.Tag = string(c.TagRaw)
+	}
 	if c.Mode == "Datadog" {
 		cfg := &datadog.Config{}
 		if err := util.UnmarshalYamlString("type: datadog\nserialization:\n  hiddenFields: []\nupstream:\n  address: https://localhost/api\n  httpTimeout: 30s\n", cfg); err != nil {
@@ -174,6 +180,9 @@ func run(c Case) vh.Result {
 		res.Classes = append(res.Classes, "partial-flush-then-more-writes")
 	}
 	res.Classes = append(res.Classes, "mode-"+c.Mode)
+	if len(c.TagRaw) > 0 && c.Mode != "Datadog" && !utf8.Valid(c.TagRaw) {
+		res.Classes = append(res.Classes, "tag-not-valid-utf8")
+	}
 	if c.Mode != "Datadog" && c.MaxBytes == 0 {
 		res.Classes = append(res.Classes, "production-limits")
 	}
@@ -238,8 +247,12 @@ func run(c Case) vh.Result {
 				res.Violation = vh.Fail("chunk:wrong-mode", "chunk %d is %s, configured %s", ci, msg.Mode, c.Mode)
 				return res
 			}
-			if msg.Tag != c.Tag {
-				res.Violation = vh.Fail("chunk:tag", "chunk %d tag %q want %q", ci, msg.Tag, c.Tag)
+			wantTag := c.Tag
+			if len(c.TagRaw) > 0 {
+				wantTag = string(c.TagRaw)
+			}
+			if msg.Tag != wantTag {
+				res.Violation = vh.Fail("chunk:tag", "chunk %d tag %q want %q", ci, msg.Tag, wantTag)
 				return res
 			}
 			if !msg.HasChunk || msg.OptChunk != ch.ID {
@@ -287,6 +300,9 @@ func gen(t *rapid.T) Case {
 	var c Case
 	c.Mode = rapid.SampledFrom([]string{"Forward", "PackedForward", "CompressedPackedForward", "Datadog"}).Draw(t, "mode")
 	c.Tag = rapid.SampledFrom([]string{"development.app", "t", "", "tag with space", "a-very-long-tag-beyond-thirty-one-bytes-xxxxxxxxxxxx", "tägß"}).Draw(t, "tag")
+	if c.Mode != "Datadog" && rapid.IntRange(0, 3).Draw(t, "rawTag") == 0 {
+		c.TagRaw = rapid.OneOf(rapid.SampledFrom([][]byte{[]byte("caf\xe9"), {0xff}, []byte("app.a\xc3"), []byte("app\x00x"), []byte("t.\xf0\x9f\x98"), []byte("exactly-31-bytes-with-a-bad-\xfe-x"), []byte("exactly-32-bytes-with-a-bad-\xfe-xy")}), rapid.SliceOfN(rapid.Byte(), 1, 40)).Draw(t, "tagRaw")
+	}
 	unit := 100
 	nops := rapid.IntRange(1, 40).Draw(t, "nops")
 	if c.Mode == "Datadog" {
